@@ -247,6 +247,8 @@ def gen_program(tape, feat):
         # cycle (the caller caught it and uses the scheduler again)
         prog["prior"]["end"] = tape.pick("prior_end", ["limit", "limit", "raise"])
         prog["prior"]["bomb_at"] = tape.draw("prior_bomb_at", 4)
+    if feat.get("ctor_lists") and tape.flag("ctor_lists", 1, 4):
+        prog["ctor_lists"] = True
     if feat.get("manual_step") and not real and not prog.get("prior") and tape.flag("manual_step", 1, 8):
         prog["manual"] = True
         # (extend()/remove() work on the scheduler's own deque, not on one the caller holds: not combined with a stepped run)
@@ -318,6 +320,7 @@ class Run:
         self.max_cycles = 400
         self.runaway = False
         self.muted = False        # True during a prior run (history): nothing is recorded
+        self.rosters = {}         # id(scheduler) -> the list object its doers were handed over in at construction
 
     # -- trace
     def ev(self, *e):
@@ -429,6 +432,11 @@ def _wake(run, nid, tyme):
         run.fault("extend")
         if present:
             run.fault("extend_already_present")
+        roster = run.rosters.get(id(sched))
+        if roster is not None:
+            for o in objs:
+                if o not in roster:
+                    roster.append(o)       # the caller's own bookkeeping, then the call
         run.ev("extend_call", nid, run.sid(sched), run.ids_of(arg), run.ids_of(sched.doers))
         try:
             sched.extend(arg)
@@ -475,6 +483,11 @@ def _wake(run, nid, tyme):
         run.fault("remove")
         if me in arg:
             run.fault("remove_self")
+        roster = run.rosters.get(id(sched))
+        if roster is not None:
+            for o in arg:
+                if o in roster:
+                    roster.remove(o)       # the caller's own bookkeeping, then the call
         run.ev("remove_call", nid, run.sid(sched), run.ids_of(arg), run.ids_of(sched.doers))
         sched.remove(arg)
         run.ev("remove_return", nid, run.sid(sched), run.ids_of(sched.doers))
@@ -719,9 +732,17 @@ def build(prog, res=None):
             obj = doing.doify(h.meth, name="m%d" % nid, tock=node["tock"])
             obj.__func__._nid = nid
         elif kind == "dodoer":
-            obj = TDoDoer(nid, tock=node["tock"], always=node["always"])
-            kids = [make(c, obj) for c in node["children"]]
-            obj.doers = kids
+            if prog.get("ctor_lists"):
+                # the doers are handed over at construction as a list the caller keeps (and keeps up to date as its roster)
+                kids = [make(c, None) for c in node["children"]]
+                obj = TDoDoer(nid, doers=kids, tock=node["tock"], always=node["always"])
+                for c in node["children"]:
+                    run.st[c].parent = obj
+                run.rosters[id(obj)] = kids
+            else:
+                obj = TDoDoer(nid, tock=node["tock"], always=node["always"])
+                kids = [make(c, obj) for c in node["children"]]
+                obj.doers = kids
         else:
             raise HarnessError("kind %r" % kind)
         run.objs[nid] = obj
@@ -732,9 +753,19 @@ def build(prog, res=None):
     args = prog.get("args") or {}
     ctor_tyme = args["ctor_tyme"] if args.get("tyme") else prog["t0"]
     ctor_limit = args["ctor_limit"] if (args.get("limit") and prog["limit"] is not None) else prog["limit"]
-    doist = TDoist(tock=prog["T"], tyme=ctor_tyme, real=prog["real"], limit=ctor_limit)
-    run.doist = doist
-    roots = [make(r, doist) for r in prog["roots"]]
+    if prog.get("ctor_lists") and not args.get("doers") and not prog.get("stale"):
+        roots = [make(r, None) for r in prog["roots"]]
+        doist = TDoist(tock=prog["T"], tyme=ctor_tyme, real=prog["real"], limit=ctor_limit, doers=roots)
+        for r in prog["roots"]:
+            run.st[r].parent = doist
+        run.rosters[id(doist)] = roots
+        run.doist = doist
+        if res is not None:
+            res.faults["schedulers_constructed_with_the_callers_list"] += 1
+    else:
+        doist = TDoist(tock=prog["T"], tyme=ctor_tyme, real=prog["real"], limit=ctor_limit)
+        run.doist = doist
+        roots = [make(r, doist) for r in prog["roots"]]
     stale = [make(r, None) for r in prog.get("stale", [])]
     for s in prog["spares"]:
         if s not in run.objs:
@@ -745,7 +776,7 @@ def build(prog, res=None):
         run.do_kwargs["doers"] = roots
         if stale:
             doist.doers = stale      # left over from "earlier use"; do(doers=...) replaces them
-    else:
+    elif id(doist) not in run.rosters:
         doist.doers = roots
     if args.get("limit") and prog["limit"] is not None:
         run.do_kwargs["limit"] = prog["limit"]
